@@ -38,6 +38,7 @@ FLOORS = {'numeric_spelling_cases': 600, 'text_spelling_cases': 100,
           'user_function_cases': 10, 'numpy_spellings': 100,
           'formula_cases': 120, 'keyword_spelling_cases': 300,
           'empty_text_cases': 20, 'numeric_by_meaning_cases': 100,
+          'blank_for_defaulted_parameter_cases': 20,
           'scientific_text_cases': 150, 'host_decimal_context_cases': 100}
 ANCHOR_FUNCS = {
     'xlcalculator/xlfunctions/xl.py': ['validate_args.<locals>.validate',
@@ -481,6 +482,72 @@ def run(ctx):
                        {'formula': text, 'A1': repr(sval), 'observed': got,
                         'canonical': canonical},
                        group=f'by-meaning:{sname}:{got[0]}:{fname}')
+
+    # ---- A4. a blank given for a numeric parameter that HAS a default other
+    # than 0 is still the number 0 (a blank is a value that was given; the
+    # default is for an argument that was left out) --------------------------
+    for fname in sorted(F):
+        if fname in SKIP or fname not in catalog.EX:
+            continue
+        try:
+            params = list(inspect.signature(F[fname]).parameters.values())
+        except (TypeError, ValueError):
+            continue
+        ex = list(catalog.EX[fname])
+        for pos, p_ in enumerate(params):
+            d_ = p_.default
+            if p_.kind != p_.POSITIONAL_OR_KEYWORD or \
+                    not is_numeric_annotation(p_.annotation) or \
+                    d_ is inspect.Parameter.empty or isinstance(d_, bool) or \
+                    not isinstance(d_, (int, float)) or d_ == 0:
+                continue
+            base, ok_ = [], True
+            for i in range(pos):
+                if i < len(ex):
+                    base.append(ex[i])
+                elif params[i].default is not inspect.Parameter.empty:
+                    base.append(params[i].default)
+                else:
+                    ok_ = False
+            if not ok_ or not mine():
+                continue
+            lib_base = [T.Array(a) if isinstance(a, list) else a for a in base]
+            canonical = monitors.call_outcome(F[fname], *lib_base, 0.0)
+            if canonical[0] != 'value':
+                continue
+            for sname, sval in (('blank-None', None), ('Blank', T.BLANK),
+                                ('int-0', 0), ('Number-0', T.Number(0))):
+                got = monitors.call_outcome(F[fname], *lib_base, sval)
+                ctx.event('numeric_spelling_cases')
+                ctx.event('blank_for_defaulted_parameter_cases')
+                ctx.case((fname, pos, 'defaulted', sname))
+                if not same(got, canonical):
+                    report(f'{fname}: parameter {p_.name} (default {d_!r}) '
+                           f'given as {sname} -> {got}, given as 0.0 -> '
+                           f'{canonical}',
+                           {'function': fname, 'position': pos,
+                            'parameter': p_.name, 'default': repr(d_),
+                            'spelling': sname, 'observed': got,
+                            'canonical': canonical},
+                           group=f'defaulted:{sname}:{fname}')
+            if all(not isinstance(a, list) for a in base):
+                head = ','.join(subject.lit(a) if not (
+                    isinstance(a, (int, float)) and not isinstance(a, bool)
+                    and a < 0) else '-' + subject.lit(-a) for a in base)
+                for sname, text, inputs in (
+                        ('cell-blank', f'={fname}({head},Z99)', {}),
+                        ('cell-zero', f'={fname}({head},Z99)', {'Z99': 0}),
+                        ('literal-zero', f'={fname}({head},0)', {})):
+                    got = subject.eval_one(text, inputs)
+                    ctx.event('blank_for_defaulted_parameter_cases')
+                    ctx.case((fname, pos, 'defaulted', sname))
+                    if not same(got, canonical):
+                        report(f'{text} with {inputs or "Z99 empty"} -> '
+                               f'{got}; {fname} with 0.0 for {p_.name} gives '
+                               f'{canonical}',
+                               {'formula': text, 'inputs': inputs,
+                                'observed': got, 'canonical': canonical},
+                               group=f'defaulted:{sname}:{fname}')
 
     # ---- A3. numbers in scientific notation, as text and as literals: upper- and
     # lower-case exponent, fractions and negatives ---------------------------
